@@ -694,12 +694,14 @@ def corpus(c, tmp):
                                and float(r[1]["b"][1]) == 2.5):
         c.fail("csv.load(';', decimal comma): empty cells must be read as NaN, not 0.0", {"corpus": "F50"},
                None if r[0] == "raise" else {k: list(map(float, r[1][k])) for k in ("a", "b")})
-    # candidate (reported, not triaged): an empty cell in a column of integer-formatted values is read as -1
+    # F51 (known): an empty cell in a column of integer-formatted values is read as -1 (numpy int fill);
+    # the main stream writes floats with a decimal point
     with open(fn, "w") as fh:
         fh.write("a,b\n1,\n,3\n")
     r = call(lambda: np.atleast_1d(csv.load(fn, delimiter=",")))
-    if r[0] == "ok" and float(r[1]["a"][1]) == -1.0:
-        c.hit("candidate C11-N3 reproduced: empty cell in an integer-formatted CSV column reads as -1")
+    got = None if r[0] == "raise" else {k: list(map(float, r[1][k])) for k in ("a", "b")}
+    c.known_probe("F51", got is None or not (got["a"][0] == 1.0 and isnan(got["a"][1]) and isnan(got["b"][0]) and got["b"][1] == 3.0),
+                  "csv.load('a,b / 1, / ,3'): empty cells of integer-formatted columns read as %s instead of NaN" % got)
     # F7 (fixed 658d814): forecast date 28 h after the start on a 7 h grid
     f = {"tz": None, "bin": None, "recs": [{"hdr": {"var": 0, "member": None, "step": 25200, "start": 0, "stop": 5 * 25200,
                                                   "forecast": 100800, "miss": xv(-999.0), "unit": "m"},
